@@ -673,7 +673,13 @@ class ExcelCompiler:
                 if raise_exceptions:
                     raise
                 cell = self.cell_map.get(addr.address, None)
-                formula = cell and cell.formula.base_formula
+                formula = cell and cell.formula and cell.formula.base_formula
+                if cell is not None and addr not in verified:
+                    # the precedents of a cell which fails still get verified
+                    verified.add(addr)
+                    if verify_tree:  # pragma: no branch
+                        to_verify.extend(
+                            a for a in cell.needed_addresses if a not in verified)
                 exc_str = str(exc)
                 exc_str_split = exc_str.split('\n')
 
